@@ -3,7 +3,7 @@ package sim
 import (
 	"time"
 
-	"github.com/rulego/streamsql/utils/simrt"
+	"verif.local/simrt"
 )
 
 // C01 — tumbling windows count every accepted event exactly once, in its own window.
